@@ -20,7 +20,7 @@ ENGINE_NOTE = "the engine runs on MemStore, an in-memory specification of relati
 CHECKS.update({
  "C01": ("the real check engine (checkIsAllowed, rewrites, binop, the concurrent checkgroup, visited set) is executed symbolically on K symbolic rows for families of rewrite configurations in both modes; the decision is compared with the well-founded relationship-graph semantics expressed as a formula over the same symbolic rows, one solver query per path",
          ENGINE_NOTE, "4 C01"),
- "C02": ("request-depth clamp: Check(r) under global G equals Check(0) under eff(r,G) for a fully symbolic 64-bit r; fail-closed: whatever is allowed under depth/width limits is allowed by the unbounded semantics formula",
+ "C02": ("request-depth clamp: Check(r) under global G equals Check(0) under eff(r,G) for a fully symbolic 64-bit r; fail-closed: whatever is allowed under depth/width limits is allowed by the unbounded semantics formula; of the subject sets one expansion returns at most max-width - 1 are followed when there are more than max-width (ghost accounting); the REST max-depth parameter is handed on with the meaning of the number sent (strconv.ParseInt as an environment stub returning an arbitrary 64-bit number)",
          ENGINE_NOTE, "4 C02"),
  "C03": ("the k-th storage call of the check fails (k symbolic over every call position, transient or persistent): the answer is an error or the fault-free answer, never allowed-for-denied, never allowed-with-error; hangs are detected as deadlocks of the modelled scheduler; Lemma PF: a failing database operation inside a read call of the real SQL layer (database model) surfaces as an error",
          ENGINE_NOTE + "; faults are injected at the MemStore boundary (engine runs) and at the pop boundary of the database model (Lemma PF), so counterexamples cannot be replayed against the real persister", "4 C03"),
@@ -50,7 +50,7 @@ CHECKS.update({
 CHECKS.update({
  "C14": ("two checks issued concurrently against one real engine and one symbolic store under every schedule within delay bound 1 of the deterministic scheduler return what they return alone; every load/store/map access of the interpreted program is checked against a vector-clock happens-before relation (data race = unordered conflicting accesses); the lazily initialised registry getters and Config.NamespaceManager (with a concurrent reload) are run from several goroutines; the entries of a real BatchCheck get the answers the same checks get alone",
          ENGINE_NOTE + "; the race analysis is the executor's own (models of go/channels/sync/atomics/context), not the Go race detector", "4 C14"),
- "C19": ("the real OPL watcher and legacy namespace watcher structs are driven by every event sequence of bounded length (2 files x {valid v1, valid v2, syntax error, type error, remove}); after every event the namespaces visible through Namespaces() must be, per file, those of one valid version loaded so far, never nothing, and the last valid version at the end; documents go through the real schema.Parse",
+ "C19": ("the real OPL watcher and legacy namespace watcher structs are driven by every event sequence of bounded length (2 files x {valid v1, valid v2, syntax error, type error, remove}); after every event the namespaces visible through Namespaces() must be, per file, those of one valid version loaded so far, never nothing, and the last valid version at the end; documents go through the real schema.Parse; a Config.watcher event with the namespaces setting unchanged keeps the manager and its last valid version",
          "events are delivered by direct calls (no fsnotify, no timing); sequences enumerated by forking, the solver is idle here; legacy parser stubbed in symbolic runs", "4 C19"),
 })
 
@@ -58,11 +58,11 @@ SQL_NOTE = "the real sql.Persister / sql.Traverser run on a database model: the 
 CHECKS.update({
  "C04": ("one inductive step: from an arbitrary symbolic table, one write operation with symbolic names (create, delete, delete-by-query, transact) through the real Persister, then the stored state is compared slot by slot with a multiset model and a listing with an arbitrary query (real GetRelationTuples/ExistsRelationTuples, whereQuery, buildInsert, buildDelete) is compared with the model as multisets by solver-decided counting formulas",
          SQL_NOTE, "4 C04"),
- "C05": ("every terminal database operation of a transact/create/delete request (1st..3rd) may fail and one relationship may lack its subject at any position: on error the table equals the pre-state slot by slot, no statement bypasses the open transaction; chunk-spanning requests (3001 inserts, 101 deletes) with the first or second statement failing",
+ "C05": ("every terminal database operation of a transact/create/delete request (1st..3rd) may fail and one relationship may lack its subject at any position: on error the table equals the pre-state slot by slot, no statement bypasses the open transaction; chunk-spanning requests (3001 inserts, 101 deletes) with the first or second statement failing, also as a retryable failure after which the transaction callback is re-run",
          SQL_NOTE + "; isolation from concurrent readers is reduced to 'all statements go through the open transaction'", "4 C05"),
  "C06": ("tables hold rows of two networks with symbolic network ids: every write under network A leaves the rows of network B unchanged (formula per slot), listings never return them, and the real subject-set-expansion and rewrite traversals (raw SQL with EXISTS sub-select) return exactly what a specification computes from network A's rows; the same with the caller's network supplied by a contextualizer from the request context while the persister was created for network B",
          SQL_NOTE, "4 C06"),
- "C07": ("arbitrary table, symbolic query and symbolic page size 0..K+1: following next_page_token through the real keyset pagination with one interleaved insert or delete returns every relationship that existed for the whole iteration at least once and nothing more often than stored, pages never exceed the size, tokens end, malformed tokens are rejected",
+ "C07": ("arbitrary table, symbolic query and symbolic page size 0..K+1: following next_page_token through the real keyset pagination with one interleaved insert or delete returns every relationship that existed for the whole iteration at least once and nothing more often than stored, pages never exceed the size, tokens end, malformed tokens are rejected; the subject-set expansion's own 1000-row page loop on concrete nodes of 1000..2001 subject sets (expansion query summarised)",
          SQL_NOTE, "4 C07"),
 })
 
